@@ -445,6 +445,12 @@ class LoopRun:
                 elif isinstance(cell, HDict) and cell.items is not None:
                     cell.sym = P.dict_to_map(ex, cell, kind)
                     cell.items = None
+                elif isinstance(cell, HSet) and cell.items is not None and isinstance(kind, K.SetOf):
+                    t_ = z3.K(kind.elem.sort(), z3.BoolVal(False))
+                    for it_ in cell.items:
+                        t_ = z3.Store(t_, P.lift(ex, it_, kind.elem), z3.BoolVal(True))
+                    cell.sym = Sym(kind, t_)
+                    cell.items = None
         for path, kind in lp.attrs.items():
             base, attr = path.rsplit('.', 1)
             fo, ref = fr.lookup(base)
@@ -476,6 +482,8 @@ class LoopRun:
                 cell.items, cell.sym = None, s
                 from . import loops
                 loops.wf_map(ex, s)
+            elif isinstance(cell, HSet):
+                cell.items, cell.sym = None, s
             else:
                 raise OutOfSubset(f'loop contract: cell {name}')
             cell.ghost.pop('frozen', None)
